@@ -137,6 +137,10 @@ class _SlowFinder(importlib.abc.MetaPathFinder):
     def find_spec(self, fullname, path=None, target=None):
         if fullname.startswith('simslow_') and '.' not in fullname:
             return importlib.machinery.ModuleSpec(fullname, _SlowLoader())
+        if fullname == 'simslowpkg':
+            return importlib.machinery.ModuleSpec(fullname, _SlowLoader(), is_package=True)      # a package ...
+        if fullname.startswith('simslowpkg.') and fullname.count('.') == 1:
+            return importlib.machinery.ModuleSpec(fullname, _SlowLoader())                       # ... and its (slow) submodules
         return None
 
 
